@@ -147,7 +147,7 @@ pub fn observe_text(o: &mut Outcome, case: &Value, text: &str, feats: &[String],
         o.v("C02", "total", "lossless::Paragraph::from_str", "panic", feats, text, m);
     }
     // ---- file-based entry points (every 4th text: they cost a file each)
-    if conc::hash64(text) % 4 == 0 {
+    if conc::hash64(text) % 4 == 0 || text.len() > 60000 {
         let path = std::env::temp_dir().join(format!("verif-deb822-{}.txt", std::process::id()));
         if std::fs::write(&path, text.as_bytes()).is_ok() {
             match guarded("Deb822::from_file", || Deb822::from_file(&path)) {
@@ -359,6 +359,22 @@ fn widen(text: &str, width: usize, variant: usize) -> Option<String> {
     if changed { Some(out) } else { None }
 }
 
+/// every field name (and every comment line) of a well-formed text made `n` characters longer: the filler goes right
+/// after the first character of the name; `long_key` is the same map on a name of the reading
+fn long_key(k: &str, n: usize) -> String { let mut c = k.chars(); match c.next() { Some(f) => format!("{}{}{}", f, "x".repeat(n), c.as_str()), None => String::new() } }
+fn lengthen_names(text: &str, n: usize) -> String {
+    let mut out = String::with_capacity(text.len() + 8 * n);
+    for line in text.split_inclusive('\n') {
+        let first = line.chars().next();
+        match first {
+            Some('#') => { let body = line.trim_end_matches('\n'); out.push_str(body); out.push_str(&"c".repeat(n)); out.push_str(&line[body.len()..]); }
+            Some(c) if c != ' ' && c != '\t' && c != '\n' && c != '\r' && line.contains(':') => out.push_str(&long_key(line, n)),
+            _ => out.push_str(line),
+        }
+    }
+    out
+}
+
 pub fn run_docs(case: &Value, seed: u64) -> Outcome {
     let mut o = Outcome::default();
     let cls = classes_of(case);
@@ -397,6 +413,18 @@ pub fn run_docs(case: &Value, seed: u64) -> Outcome {
                     let exp8: Vec<Vec<(String, String)>> = vec![(0..8).flat_map(|_| expected[0].iter().cloned()).collect()];
                     observe_text(&mut o, case, &big, &f2, false);
                     check_reading(&mut o, &big, &exp8, &f2);
+                }
+            }
+            // LONG NAMES: field names (and comment lines) 255 / 256 / 257 / 70000 characters longer - the reading is the
+            // same with the names mapped
+            if m == 0 && !text.contains('\r') && conc::hash64(&text) % 4 == 1 {
+                for n in [255usize, 256, 257, 70000] {
+                    if n > 1000 && conc::hash64(&text) % 64 != 1 { continue; }
+                    let long = lengthen_names(&text, n);
+                    let exp: Vec<Vec<(String, String)>> = expected.iter().map(|p| p.iter().map(|(k, v)| (long_key(k, n), v.clone())).collect()).collect();
+                    let mut f2 = feats.clone(); f2.push("long_names".into());
+                    observe_text(&mut o, case, &long, &f2, false);
+                    check_reading(&mut o, &long, &exp, &f2);
                 }
             }
             // WIDE variant: indentation and the blanks after a colon are not part of the reading, so widening them to
@@ -495,6 +523,16 @@ pub fn run_files(case: &Value, _seed: u64) -> Outcome {
             let t = format!("{}: {}\n\n{}", "P".repeat(1 + pad), long_line, body);
             observe_text(&mut o, case, &t, &feats, false);
         }
+    }
+    // ... and sizes just above 2^16, 2^20, 2^22 and 2^24 bytes (a reader that stops at a round limit), once each
+    if id <= 4 {
+        let feats = vec!["scaled".to_string(), "size_boundary".to_string()];
+        let target = [1usize << 16, 1 << 20, 1 << 22, 1 << 24][(id as usize).saturating_sub(1) % 4] + 4096;
+        let unit = if text.ends_with('\n') && !text.ends_with("\n\n") { format!("{}\n", text) } else { text.to_string() };
+        let mut t = String::with_capacity(target + unit.len() + 64);
+        while t.len() < target { t.push_str(&unit); }
+        t.push_str("Last-Key: the end\n");
+        observe_text(&mut o, case, &t, &feats, false);
     }
     o.sample = json!({"source": src, "text": text.chars().take(120).collect::<String>(), "model_errors": case["e"], "model_lossy": case["ls"]});
     o
